@@ -49,6 +49,7 @@ std::string addr_to_sym(uintptr_t addr);
 bool section_range(const char *name, uintptr_t *lo, uintptr_t *hi);
 std::vector<std::pair<std::string, uintptr_t>> symbols_in(uintptr_t lo, uintptr_t hi);
 std::vector<std::string> symbols_matching(const char *prefix, const char *suffix);
+std::vector<std::pair<std::string, uintptr_t>> symbols_in_of_file(uintptr_t lo, uintptr_t hi, const char *file_prefix);
 
 // AAD length classes shared by the GCM workloads: the AAD hash has its own bulk loops (8 x 16, 16 x 16 and 32 x 16 byte groups), so
 // lengths are drawn around multiples of 16, 128, 256 and 512 bytes as well as from the short range real protocols use
